@@ -1084,7 +1084,34 @@ func runValSlice(c *core.Ctx) {
 				kindOK = ok && t.Equal(an.Range(0, 65535))
 			}
 		}
-		c.Check(kindOK && pkOK, nil, fname(c, av), "tag[a]", P.Pos(av.Pos()), "address parts validated by the kind and pubkey validators", fmt.Sprintf("address validator: kind part validated=%v, pubkey part validated=%v", kindOK, pkOK))
+		// the kind part is read as a decimal integer wide enough for every kind: a 16-bit signed
+		// parse refuses 32768…65535 before the kind validator is asked
+		parseOK, parseWhy := true, ""
+		for _, ci := range calls(av) {
+			call, ok := ci.(*ssa.Call)
+			if !ok {
+				continue
+			}
+			switch an.CalleeName(&call.Call) {
+			case "strconv.ParseInt", "strconv.ParseUint":
+				base, okB := an.ConstInt(call.Call.Args[1])
+				bits, okS := an.ConstInt(call.Call.Args[2])
+				signed := an.CalleeName(&call.Call) == "strconv.ParseInt"
+				minBits := int64(17)
+				if !signed {
+					minBits = 16
+				}
+				if !okB || !okS || (base != 10 && base != 0) || (bits != 0 && bits < minBits) {
+					parseOK = false
+					parseWhy = fmt.Sprintf("%s(_, %v, %v) cannot represent every kind in [0,65535] in decimal", an.CalleeName(&call.Call), call.Call.Args[1], call.Call.Args[2])
+				}
+				if base == 0 {
+					parseOK = false
+					parseWhy = "base 0 also accepts 0x…/0o… spellings of the kind"
+				}
+			}
+		}
+		c.Check(kindOK && pkOK && parseOK, nil, fname(c, av), "tag[a]", P.Pos(av.Pos()), "address parts validated by the kind and pubkey validators; the kind is parsed as a decimal integer of sufficient width", fmt.Sprintf("address validator: kind part validated=%v, pubkey part validated=%v, kind parse ok=%v %s", kindOK, pkOK, parseOK, parseWhy))
 	}
 	// Message types delegate
 	for _, row := range []struct {
